@@ -21,7 +21,7 @@ def run(ctx):
     if mc.violated:
         raise core.ToolFailure("design-level invariant %s of SymLookup.tla is violated in the model" % mc.violated)
     rep = ctx.read_harness_report(ctx.harness("replay_symlookup", [mc.out_path], out_name="replay_symlookup.out", timeout=3000))
-    for need in ("func", "func+line", "func+inlines", "public", "none"):
+    for need in ("func", "func+line", "func+inlines", "public", "none", "below-base"):
         if rep["classes"].get(need, 0) == 0:
             raise core.ToolFailure("vacuous replay: class %s never exercised" % need)
     sp = ctx.tlc("SymParse", "MC_SymParse_" + ctx.tier, coverage="separate", required_actions=["Feed"], timeout=6000, out_name="symparse")
